@@ -146,7 +146,7 @@ def evaluate(case):
     for ev in s.events:
         k, d = ev[3], ev[4]
         if k == "tap_submit" and d["tap"] == TAP:
-            taps.append({"seq": ev[0], "t": ev[1], "fn": d["fn"], "thread": ev[2]})
+            taps.append({"seq": ev[0], "t": ev[1], "fn": d["fn"], "thread": ev[2], "not_done": d.get("not_done")})
             handover_thread = ev[2]
         elif k == "tap_done" and d["tap"] == TAP:
             dones[d["fn"]] = (ev[0], ev[1])
@@ -154,7 +154,9 @@ def evaluate(case):
             count_rets.append((ev[0], ev[2], d["value"] if k == "ret" else "raise"))
     # --- (a) in-flight bound at every hand-over
     for i, tp in enumerate(taps):
-        inflight = 1 + sum(1 for q in taps[:i] if not (q["fn"] in dones and dones[q["fn"]][0] < tp["seq"]))
+        # not done = the delegate futures' states at the instant of the hand-over (the recorded done-callback can lag)
+        inflight = 1 + (tp["not_done"] if tp["not_done"] is not None else
+                        sum(1 for q in taps[:i] if not (q["fn"] in dones and dones[q["fn"]][0] < tp["seq"])))
         if not dynamic:
             bound = INF if count is None else count
         else:
